@@ -300,6 +300,32 @@ def mx_txt_name(priority: int, first: bytes, second: bytes) -> bool:
     return bytes(record.DnsRecordTxt((first + second).decode('ascii')).compose()) == ref.txt([first + second])
 
 
+def txt_lengths():
+    """concrete: TXT data at the character-string boundary (RFC 1035 3.3: <= 255 octets per string): the composed RDATA
+    is the value cut into 255-octet strings - no more strings than needed - and parses back to the value"""
+    from cryptoparser.dnsrec.record import DnsRecordTxt  # pylint: disable=import-outside-toplevel
+    problems = []
+    for length in (0, 1, 254, 255, 256, 509, 510, 511, 765, 1020):
+        value = ''.join(chr(97 + idx % 26) for idx in range(length))
+        raw = value.encode('ascii')
+        expected = ref.txt([raw[offset:offset + 255] for offset in range(0, length, 255)] or [b''])
+        try:
+            composed = bytes(DnsRecordTxt(value).compose())
+        except Exception as exc:  # pylint: disable=broad-except
+            problems.append('TXT value of %d octets cannot be composed: %s' % (length, type(exc).__name__))
+            continue
+        if composed != expected:
+            problems.append('TXT value of %d octets composes to %d octets of RDATA, RFC 1035 chunking gives %d' % (
+                length, len(composed), len(expected)))
+        try:
+            parsed = DnsRecordTxt.parse_exact_size(expected)
+            if parsed.value != value or bytes(parsed.compose()) != expected:
+                problems.append('TXT RDATA for a value of %d octets does not survive parse + compose' % length)
+        except Exception as exc:  # pylint: disable=broad-except
+            problems.append('TXT RDATA for a value of %d octets is rejected: %s' % (length, type(exc).__name__))
+    return problems
+
+
 def key_sizes():
     """concrete: per-algorithm public key sizes of RFC 6605 / RFC 8080 and no dropped trailing bytes, real PublicKey"""
     from cryptoparser.dnsrec.record import DnsRecordDnskey  # pylint: disable=import-outside-toplevel
@@ -410,6 +436,8 @@ def shards(tier, seed):  # pylint: disable=unused-argument
                                                              'ONE': not thorough}, 1800 if thorough else 600,
                          bounds='%s: labels / strings of symbolic [a-z0-9] characters (quick: one label of <= 1 '
                                 'character next to a fixed one; thorough: two of <= 2), priority 16 bit' % kind))
+    out.append(Shard(MOD, 'txt_lengths', 'txt_lengths', {}, kind='concrete',
+                     bounds='TXT values of 0, 1, 254..256, 509..511, 765, 1020 octets against RFC 1035 chunking (natively)'))
     out.append(Shard(MOD, 'key_sizes', 'key_sizes', {}, kind='concrete',
                      bounds='RFC 6605 / RFC 8080 key sizes with the real PublicKey (natively)'))
     return out
